@@ -17,10 +17,12 @@ def corpus_jobs(tier: str, seed: int) -> List[dict]:
     else:
         ops = corpus.abstract_family(max_items=3, per_target=120, seed=seed)
         wdepth = 2
+    # one operation per package: an operation that makes generation or import fail must not hide the others
     for snake in (True, False):
-        jobs += corpus.package_jobs_from_ops(corpus.S_ABS, ops if snake else ops[::3], corpus.FRAGS_ABS, 12, {"convert_to_snake_case": snake})
+        jobs += corpus.package_jobs_from_ops(corpus.S_ABS, ops if snake else ops[::3], corpus.FRAGS_ABS, 1, {"convert_to_snake_case": snake})
     sdl, wops = corpus.wrappers_ops(wdepth)
     jobs += corpus.package_jobs_from_ops(sdl, wops, {}, 10, {})
+    jobs += corpus.misc_jobs()  # custom root names, mutation/subscription results, three levels of abstract nesting, enum/scalar lists
     return jobs
 
 
@@ -43,9 +45,33 @@ def fold(rep: Report, results: List[dict], jobs: List[dict], want_q: set, c04_cb
             progs += 1
         else:
             gen_fail += 1
+            if c04_cb is not None:
+                c04_cb(job, r)
         for s in r["samples"]:
             rep.sample(s)
         for f in r["findings"]:
             if f["sig"].get("q") in want_q:
                 rep.violation(f["sig"], f["replay"], f["what"][:500])
     return progs, ops, nodes, gen_fail
+
+
+def classify_unanalysable(job, r) -> dict:
+    """signature of a corpus package that does not generate / load (so that listed defects are acknowledged, new ones reported)"""
+    import re
+
+    gen_ok = bool((r.get("gen") or {}).get("ok"))
+    text = ((r.get("gen") or {}).get("exc_msg") or "") if not gen_ok else " ".join(v for v in (r.get("import") or {}).get("modules", {}).values() if v != "ok")
+    q = job.get("queries") or ""
+    if not gen_ok and "'NoneType' object has no attribute 'name'" in text and re.search(r"\.\.\.\s*(@\w+(\([^)]*\))?\s*)?\{", q):
+        cls = "untyped_inline_fragment_crash"
+    elif gen_ok and "needs a discriminator field" in text and re.search(r"\w+\s*:\s*__typename", q):
+        cls = "aliased_typename_suppresses_discriminator"
+    elif gen_ok and (re.search(r"cannot import name '\w+' from '[\w.]*fragments'", text) or re.search(r"No module named '[\w.]*fragments'", text)):
+        cls = "fragment_excluded_but_imported"
+    elif not gen_ok and (r["gen"] or {}).get("exc_type") == "builtins.KeyError":
+        cls = "fragment_excluded_but_referenced"
+    elif gen_ok and "consistent method resolution" in text:
+        cls = "mro_conflict"
+    else:
+        cls = "other"
+    return {"q": "package", "problem": "corpus_package_not_generated_or_not_loadable", "class": cls, "stage": "import" if gen_ok else "generation", "detail": text[:160] if cls == "other" else None}
